@@ -48,6 +48,7 @@ def gr_post(I, outcome, ctx):
         return
     if isinstance(v, VNone):
         cover(I, 'none')
+        gr_none_in_loop(I, n)
         return
     if isinstance(v, VCList):
         v = clist_to_sym(v, RANGE_T)
@@ -65,6 +66,32 @@ def gr_body_hook(I):
     if isinstance(r, VCList):
         r = clist_to_sym(r, RANGE_T)
     I.st.ghost['RESULT_AT_ITER_START'] = r
+    I.st.ghost['ITER_BRANGE'] = lib.unopt(I, I.local('brange')).t
+
+
+def _spec_terms(b):
+    dash = z3.StringVal('-')
+    idx = z3.IndexOf(b, dash, 0)
+    strip = core.fn('py_strip', _S(), _S())
+    p0 = strip(z3.SubString(b, 0, idx))
+    p1 = strip(z3.SubString(b, idx + 1, z3.Length(b) - idx - 1))
+    return idx, p0, p1, core.fn('py_int_val', _S(), z3.IntSort()), core.fn('py_int_ok', _S(), z3.BoolSort())
+
+
+def gr_none_in_loop(I, n):
+    """the header is ignored as a whole (None -> the full entity is served) from inside the loop only because THIS byte-range-spec is
+    malformed: no '-', a non-numeric position, a negative suffix length, an empty spec, or last < first (for a first position that
+    lies inside the entity; beyond it the spec is unsatisfiable and skipped)"""
+    b = I.st.ghost.get('ITER_BRANGE')
+    if b is None:
+        return
+    idx, p0, p1, ival, iok = _spec_terms(b)
+    E = z3.StringVal('')
+    malformed = z3.Or(idx < 0,
+                      z3.And(p0 != E, z3.Or(z3.Not(iok(p0)), z3.And(p1 != E, z3.Not(iok(p1))), z3.And(p1 != E, ival(p1) < ival(p0), ival(p0) < n))),
+                      z3.And(p0 == E, z3.Or(p1 == E, z3.Not(iok(p1)), ival(p1) < 0)))
+    I.oblige('exact.header_ignored_only_for_a_malformed_spec', malformed,
+             detail='a well-formed byte-range-spec made get_ranges return None (the full entity would be served instead of the range)')
 
 
 def gr_iter_hook(I):
